@@ -138,7 +138,7 @@ pub fn fingerprint(s: &Script) -> u64 {
         h.u(0xF000 + f.first().copied().unwrap_or(0) as u64);
     }
     h.u(size_class(s.ops.len() as i64));
-    for op in s.ops.iter().take(24) {
+    for op in s.ops.iter().take(6) {
         let mut x = 0u64;
         for v in op {
             x = x * 16 + size_class(*v);
